@@ -11,7 +11,7 @@ rsync -a --exclude .git --exclude replay --exclude evidence /verif/ "$V"/
 mkdir -p "$V/replay" "$V/evidence"
 for p in "$@"; do
   out=$(cd "$V" && TEXSOUP_REPO="$W" PYTHONHASHSEED=0 PYTHONDONTWRITEBYTECODE=1 /venv/bin/python -W ignore harness/main.py $p --tier ${TIER:-quick} 2>&1); rc=$?
-  echo "== $p exit=$rc"; printf "%s\n" "$out" | grep -E "VIOLATION|KNOWN-FINDING|obligations|Traceback|Error" | cut -c1-300
+  echo "== $p exit=$rc"; printf "%s\n" "$out" | grep -E "VIOLATION|KNOWN-FINDING|NOTE:|obligations|Traceback|Error" | cut -c1-300
   for r in $(printf "%s\n" "$out" | grep -o 'replay=[^ ]*' | cut -d= -f2); do
     [ -f "$r" ] && /venv/bin/python -c "
 import json,sys; d=json.load(open('$r')); print('   replay kind=%s input=%r' % (d.get('kind'), str(d.get('input'))[:100]))"
